@@ -128,7 +128,15 @@ def main(argv: List[str]) -> int:
     for s_ in other["structures"]:
         if s_["name"] in ("WorkDoneProgressParams", "Location", "TextDocumentIdentifier", "Range"):
             s_["properties"].append({"name": "verifNote", "type": {"kind": "base", "name": "string"}, "optional": True})
+    for m_ in other["requests"][3:40:4] + other["notifications"][1:20:3]:
+        m_.pop("typeName", None)  # class names of these methods are derived differently in the other model
     other_model = os.path.join(tmp, "ext", "other.json")
+    # a model on which every plugin fails (a reference to a structure that does not exist): "a failed run" for the in-process history
+    broken = json.loads(json.dumps(other))
+    broken["structures"][0]["properties"].append({"name": "verifDangling", "type": {"kind": "reference", "name": "VerifDoesNotExist"}})
+    broken["structures"][0].setdefault("extends", []).append({"kind": "reference", "name": "VerifDoesNotExistEither"})
+    broken_model = os.path.join(tmp, "ext", "broken.json")
+    json.dump(broken, open(broken_model, "w"))
     json.dump(other, open(other_model, "w"))
     jobs = []
     for pl in plugins:
@@ -140,7 +148,9 @@ def main(argv: List[str]) -> int:
         jobs.append((pl, "default", None, "0", "rerun"))
         jobs.append((pl, "default", None, "0", "after-other-model"))
         jobs.append((pl, "default", None, "0", "stale-files"))
+        jobs.append((pl, "default", None, "0", "stale-crlf"))
         jobs.append((pl, "default", None, "0", "in-process-after-other-model"))
+        jobs.append((pl, "default", None, "0", "in-process-after-failed-run"))
 
     # the testdata plugin on the first 10 requests / notifications only (whole-model runs are in the thorough tier)
     jobs.append(("testdata", "sliced", None, "0", "sliced-fresh"))
@@ -151,13 +161,13 @@ def main(argv: List[str]) -> int:
         out = os.path.join(tmp, f"{pl}-{mname}-{sd}-{hist}")
         os.makedirs(out, exist_ok=True)
         logs = []
-        if hist in ("in-process-after-other-model", "sliced-fresh"):
+        if hist in ("in-process-after-other-model", "in-process-after-failed-run", "sliced-fresh"):
             # one interpreter generates an evolved model and then the committed one: the second output must be the fresh-process one
             env = dict(os.environ, VERIF_REPO=REPO, PYTHONPATH=REPO, PYTHONHASHSEED=sd, PYTHONDONTWRITEBYTECODE="1")
             if mname == "sliced":
                 env["VERIF_SLICE"] = "10"
             out_a = out + "-A"
-            p = subprocess.run([gen.PY, os.path.join(VERIF, "tools", "c16_inproc.py"), pl, "-" if hist == "sliced-fresh" else other_model, out_a, base_model, out], cwd=REPO, env=env, capture_output=True, text=True, timeout=900)
+            p = subprocess.run([gen.PY, os.path.join(VERIF, "tools", "c16_inproc.py"), pl, "-" if hist == "sliced-fresh" else broken_model if hist == "in-process-after-failed-run" else other_model, out_a, base_model, out], cwd=REPO, env=env, capture_output=True, text=True, timeout=900)
             shutil.rmtree(out_a, ignore_errors=True)
             dig = gen.tree_digest(out)
             owned_pat = {"python": lambda p_: p_.endswith("types.py"), "rust": lambda p_: p_.endswith("lib.rs"), "dotnet": lambda p_: p_.endswith(".cs"), "testdata": lambda p_: p_.endswith(".json")}[pl]
@@ -170,6 +180,18 @@ def main(argv: List[str]) -> int:
         elif hist == "after-other-model":
             rc, log, _ = gen.run_plugin(pl, out, models=[base_model, ext_path], hashseed="3")
             logs.append(rc)
+        elif hist == "stale-crlf":
+            # the right text with the wrong line endings (a checkout with autocrlf, then regenerated): the files must be rewritten
+            rc, log, _ = gen.run_plugin(pl, out, models=models, hashseed="0")
+            logs.append(rc)
+            for p_ in gen.tree_digest(out):
+                fp = os.path.join(out, p_)
+                try:
+                    data = open(fp, "rb").read()
+                except OSError:
+                    continue
+                if b"\r" not in data and b"\n" in data:
+                    open(fp, "wb").write(data.replace(b"\n", b"\r\n"))
         elif hist == "stale-files":
             # a first run tells us where the plugin writes; then plant stale files of every owned kind
             rc, log, _ = gen.run_plugin(pl, out, models=models, hashseed="0")
@@ -222,7 +244,7 @@ def main(argv: List[str]) -> int:
         )
     run.assume(
         "the qualifier system is conservative: set displays/calls, set algebra on dict views, glob/listdir results are Unordered; id_/uuid values are Opaque; sorted/len/min/max/any/all/membership are order-insensitive consumers; per-element file operations on element-derived targets are order-insensitive; dict iteration is insertion-ordered",
-        "hash seeds and histories are explored only on the stated finite set (bounded): 3 (quick) / 6 (thorough) seeds x {fresh, re-run, after a different model, planted stale files, in the same interpreter after an evolved model} x {committed model, committed model + extension file}",
+        "hash seeds and histories are explored only on the stated finite set (bounded): 3 (quick) / 6 (thorough) seeds x {fresh, re-run, after a different model, planted stale files, owned files with CRLF line endings, in the same interpreter after an evolved model, in the same interpreter after a failed run} x {committed model, committed model + extension file}",
         "the FS frame is a structural obligation on generate_from_spec/cleanup (cleanup before writes, unconditional, glob covers the owned extension, writes independent of prior directory contents)",
     )
     static_ob = nq + nf
